@@ -3,6 +3,7 @@ package checks
 import (
 	"encoding/json"
 	"fmt"
+	"math/big"
 	"sort"
 	"strings"
 	"time"
@@ -18,6 +19,7 @@ import (
 	rlogger "github.com/ethereum/go-ethereum/eth/tracers/logger"
 	_ "github.com/ethereum/go-ethereum/eth/tracers/native"
 	"verif/fw"
+	"verif/gen"
 	"verif/mc"
 	"verif/scn"
 	"verif/world"
@@ -82,15 +84,45 @@ func structPair(label string, a alogger.Config, r rlogger.Config) tracerPair {
 	}
 }
 
-func aclPair() tracerPair {
+func aclPair() tracerPair { return aclPairWith("accessListTracer", false) }
+
+// aclPrev is a previous access list (second round of access-list creation): entries with storage keys for the sender,
+// the recipient, a precompile and two other accounts, with keys the programs touch and keys they never touch.
+func aclPrev(cs *world.Case) ethtypes.AccessList {
+	k := func(v ...uint64) []common.Hash {
+		var out []common.Hash
+		for _, x := range v {
+			out = append(out, common.BigToHash(new(big.Int).SetUint64(x)))
+		}
+		return out
+	}
+	return ethtypes.AccessList{
+		{Address: cs.From, StorageKeys: k(1, 0x77)},
+		{Address: cs.To, StorageKeys: k(0, 1, 0x78)},
+		{Address: common.BytesToAddress([]byte{4}), StorageKeys: k(0x79)},
+		{Address: gen.CWrite, StorageKeys: k(3, 0x7a)},
+		{Address: gen.Absent},
+		{Address: cs.From},
+	}
+}
+
+func aclPairWith(name string, prev bool) tracerPair {
 	return tracerPair{
-		Name: "accessListTracer",
+		Name: name,
 		NewA: func(cs *world.Case) (avm.EVMLogger, func() string) {
-			t := alogger.NewAccessListTracer(ethtypes.AccessList{}, cs.From, cs.To, avm.ActivePrecompiles(world.Rules(cs.Fork)))
+			pl := ethtypes.AccessList{}
+			if prev {
+				pl = aclPrev(cs)
+			}
+			t := alogger.NewAccessListTracer(pl, cs.From, cs.To, avm.ActivePrecompiles(world.Rules(cs.Fork)))
 			return t, func() string { return renderACL(t.AccessList()) }
 		},
 		NewR: func(cs *world.Case) (rvm.EVMLogger, func() string) {
-			t := rlogger.NewAccessListTracer(ethtypes.AccessList{}, cs.From, cs.To, avm.ActivePrecompiles(world.Rules(cs.Fork)))
+			pl := ethtypes.AccessList{}
+			if prev {
+				pl = aclPrev(cs)
+			}
+			t := rlogger.NewAccessListTracer(pl, cs.From, cs.To, avm.ActivePrecompiles(world.Rules(cs.Fork)))
 			return t, func() string { return renderACL(t.AccessList()) }
 		},
 	}
@@ -119,6 +151,7 @@ func c18Pairs() []tracerPair {
 		structPair("{limit1}", alogger.Config{Limit: 1}, rlogger.Config{Limit: 1}),
 		structPair("{limit5,mem}", alogger.Config{Limit: 5, EnableMemory: true}, rlogger.Config{Limit: 5, EnableMemory: true}),
 		aclPair(),
+		aclPairWith("accessListTracer(previous list)", true),
 		nativePair("prestateTracer", `{}`),
 		nativePair("prestateTracer", `{"diffMode":true}`),
 		nativePair("4byteTracer", `{}`),
@@ -296,7 +329,7 @@ func init() {
 		ID:        "C18",
 		Level:     "model_checking",
 		Technique: "bounded exhaustive enumeration of programs x gas limits (step boundaries of the ample-gas run) executed on the real interpreter and on go-ethereum v1.12.0 with (i) equivalent full-data recording debug tracers and (ii) each ported tracer next to its upstream original, results compared byte for byte; scenario call trees with failing join points for balance and nesting of the event stream",
-		Rule: "(i) C01's IM/SEQ/ENTRY/EIPS/SSTORESEQ/SDSEQ/CREATESEQ families: full callback streams (copied stack, memory, return data, gas, cost, depth, refund, error text; enter/exit arguments) equal at ample gas and at sampled step-boundary limits; (iii) 17 tracer configurations (structLogger x5, accessListTracer, prestateTracer x2, 4byteTracer, callTracer x3, flatCallTracer x3, muxTracer, noopTracer) port vs upstream, bracketed by the same CaptureTxStart/End, at ample gas and 2 limits; (ii) scenario trees (depth 2 and depth-3 chains) with Aspects bound everywhere and failing answers, 1-3 invocations: start/end, enter/exit, Aspect enter/exit balanced and nested, every instruction reported at the depth of the open frames. non-trivial = distinct (case, limit, tracer) runs whose reference result contains at least one nested frame or an error",
+		Rule: "(i) C01's IM/SEQ/ENTRY/EIPS/SSTORESEQ/SDSEQ/CREATESEQ families: full callback streams (copied stack, memory, return data, gas, cost, depth, refund, error text; enter/exit arguments) equal at ample gas and at sampled step-boundary limits; (iii) 18 tracer configurations (structLogger x5, accessListTracer with and without a previous list, prestateTracer x2, 4byteTracer, callTracer x3, flatCallTracer x3, muxTracer, noopTracer) port vs upstream, bracketed by the same CaptureTxStart/End, at ample gas and 2 limits; (ii) scenario trees (depth 2 and depth-3 chains) with Aspects bound everywhere and failing answers, 1-3 invocations: start/end, enter/exit, Aspect enter/exit balanced and nested, every instruction reported at the depth of the open frames. non-trivial = distinct (case, limit, tracer) runs whose reference result contains at least one nested frame or an error",
 		Assumptions: []string{"tracer outputs are compared when no Aspect is bound (the statement's domain for the inherited tracers)"},
 		Bounds: func(t string) map[string]any {
 			o := c18Opts(t)
